@@ -425,9 +425,9 @@ def _jobs_for(prop, tier):
     if prop == 'C01':
         return jobs_c01(tier) + jobs_carry(tier) + jobs_numpy_getitem(tier) + jobs_option_getitem(tier) + jobs_ellipsis(tier) + jobs_missing(tier) + jobs_advanced(tier) + jobs_getitem_entry(tier)
     if prop == 'C05':
-        return jobs_c05(tier) + [j for j in jobs_option_below(tier) if j[1][3] in ('num', 'localindex')] + jobs_flatten(tier) + jobs_axis0(tier, 'localindex') + jobs_record_below(tier, ('num', 'localindex'))
+        return jobs_c05(tier) + [j for j in jobs_option_below(tier) if j[1][3] in ('num', 'localindex')] + jobs_flatten(tier) + jobs_axis0(tier, 'localindex') + jobs_record_below(tier, ('num', 'localindex')) + jobs_axis_through_record(tier, ('num', 'localindex'))
     if prop == 'C09':
-        return jobs_c09(tier) + [j for j in jobs_option_below(tier) if j[1][3] in ('rpad', 'rpad_and_clip')] + jobs_simplify(tier) + jobs_fillna(tier) + jobs_bytemask(tier) + jobs_record_below(tier, ('rpad', 'rpad_and_clip'))
+        return jobs_c09(tier) + [j for j in jobs_option_below(tier) if j[1][3] in ('rpad', 'rpad_and_clip')] + jobs_simplify(tier) + jobs_fillna(tier) + jobs_bytemask(tier) + jobs_record_below(tier, ('rpad', 'rpad_and_clip')) + jobs_axis_through_record(tier, ('rpad', 'rpad_and_clip'))
     if prop == 'C11':
         return jobs_simplify(tier)
     if prop == 'C07':
@@ -5026,4 +5026,103 @@ def jobs_getitem_entry(tier):
         js.append((h_getitem_entry, (L, 'array'), 900))
         for st in ((1, -1) if tier == 'quick' else (1, 2, -1, -2)):
             js.append((h_getitem_entry, (L, 'range', st), 900))
+    return js
+
+
+# ------------------------------------------------------------------------------------------------ C05 / C09: a negative axis through a record
+@guard
+def h_axis_through_record(meth, axis, nfields=1, outer=(2, 1)):
+    """num / localindex / rpad of a three-level structure built from real nodes - lists of records whose fields are lists over an opaque leaf -
+    at the innermost list level, addressed as axis=2 and as axis=-1: both name the same level, so both give the counts / positions / padded
+    lists of the innermost lists, field by field, and leave the outer lists and the records as they were"""
+    n_rec = sum(outer)
+    inner_lens = [(2, 1, 2, 0, 3)[i % 5] for i in range(n_rec)]
+    nc = NodeCtx(['LOA', 'REC', 'NA', 'IA', 'RA', 'IDX', 'CNT', 'UTL', 'KD', 'IDS'], [], unwind=max(12, 3 * n_rec + sum(inner_lens) + 10))
+    nc.m.eng.stubs['vf$slot%d' % nc.slot('14purelist_depthEv')] = lambda eng, fr, ins, st, name, argv: BV(1)
+    nc.m.eng.stubs['vf$slot%d' % nc.slot('12minmax_depthEv')] = lambda eng, fr, ins, st, name, argv: [BV(1), BV(1)]
+    nc.m.eng.stubs['vf$slot%d' % nc.slot('12branch_depthEv')] = lambda eng, fr, ins, st, name, argv: [z3.BitVecVal(0, 8), BV(1)]
+    leaf0, leaflen = nc.content0, nc.lencontent
+    fields, inner_lists_ = [], []
+    # the field contents: list nodes over the leaf (field 0) / over further opaque leaves (other fields)
+    this_in, lists_in, offs_in = build_listoffset64(nc, inner_lens, name='inner0')
+    fields.append(this_in); inner_lists_.append(lists_in)
+    BASE = 1 << 32
+    for k in range(1, nfields):
+        clen = nc.m.bv('lenleaf%d' % k)
+        kk = z3.BitVec('k!', 64)
+        nc.content0 = nc.new_content_in(nc.m.mem, 'leaf_%d' % k, clen, z3.Lambda([kk], kk + k * BASE), const=True)
+        nc.lencontent = clen
+        nc.m.assume(clen <= 2 ** 20)
+        t_, l_, o_ = build_listoffset64(nc, inner_lens, name='inner%d' % k)
+        l_ = [[Elem(z3.simplify(e.val + k * BASE)) for e in lst] for lst in l_]
+        fields.append(t_); inner_lists_.append(l_)
+    # the record node over the field list nodes
+    fo, sz, al, flds = nc.layout_of('REC', '_ZNK7awkward11RecordArray6lengthEv')
+    cells = {}
+    for i, p in enumerate(fields):
+        cells[16 * i] = (p, 8); cells[16 * i + 8] = (NULL, 8)
+    nc.m.record('rec_contents', cells, const=True)
+    nb = 16 * nfields
+    hdr = nc.content_header('rec', nc.vptr_of('N7awkward11RecordArrayE', 'REC'))
+    hdr.update({fo[1]: (NULL, 8), fo[1] + 8: (NULL, 8), fo[2]: (Ptr('rec_contents', 0), 8), fo[2] + 8: (Ptr('rec_contents', nb), 8), fo[2] + 16: (Ptr('rec_contents', nb), 8),
+                fo[3]: (NULL, 8), fo[3] + 8: (NULL, 8), fo[4]: (BV(n_rec), 8), fo[5]: (NULL, 8), fo[5] + 8: (NULL, 8), fo[5] + 16: (NULL, 8)})
+    rec = nc.m.record('rec', hdr, const=True)
+    # the outer list node over the records
+    nc.content0, nc.lencontent = rec, BV(n_rec)
+    this, lists_out, offs_out = build_listoffset64(nc, list(outer), name='node')
+    nc.content0, nc.lencontent = leaf0, leaflen
+    nc.m.record('ret', {})
+    mm = {'num': '3numEll', 'localindex': '10localindexEll', 'rpad': '4rpadElll', 'rpad_and_clip': '13rpad_and_clipElll'}[meth]
+    pre = [BV(3)] if meth.startswith('rpad') else []
+    out = nc.m.call('_ZNK7awkward17ListOffsetArrayOfIlE' + mm, [Ptr('ret', 0), this] + pre + [BV(axis), BV(0)])
+    obls = [('%s(axis=%d) does not raise' % (meth, axis), out.raised)]
+
+    def per_list(lst):
+        if meth == 'num':
+            return Elem(BV(len(lst)))
+        if meth == 'localindex':
+            return [Elem(BV(j)) for j in range(len(lst))]
+        return (lst + [NONE] * max(0, 3 - len(lst)))[:(3 if meth == 'rpad_and_clip' else None)]
+    want, r = [], 0
+    for L in outer:
+        want.append([[per_list(inner_lists_[k][r + i]) for k in range(nfields)] for i in range(L)])
+        r += L
+    for g, res in nodeh.decode_cases(nc, out.mem, nc.m.cell('ret', 0)):
+        if res is None:
+            obls.append(('a result is returned', z3.And(g, z3.Not(out.raised))))
+        else:
+            obls += [(nm, z3.And(g, c)) for nm, c in nodeh.compare_value(res, want)]
+
+    def replay(model, ent):
+        prog, rows = '', []
+        for k in range(nfields):
+            flat, offs_, frows = [], [0], []
+            for i, L in enumerate(inner_lens):
+                row = [100 * k + 10 * i + j for j in range(L)]
+                flat += row; offs_.append(len(flat)); frows.append(row)
+            prog += 'i64 %s listoffset64 %s ' % (fullnative.ints(flat), fullnative.ints(offs_))
+            rows.append(frows)
+        prog += 'tuple %d %d ' % (nfields, n_rec)
+        oo = [0]
+        for L in outer:
+            oo.append(oo[-1] + L)
+        prog += 'listoffset64 %s ' % fullnative.ints(oo)
+        ref = {'num': len, 'localindex': lambda l: list(range(len(l))), 'rpad': lambda l: py_pad(l, 3, False, None), 'rpad_and_clip': lambda l: py_pad(l, 3, True, None)}[meth]
+        op = {'num': 'num %d', 'localindex': 'localindex %d', 'rpad': 'rpad 3 %d', 'rpad_and_clip': 'rpadclip 3 %d'}[meth] % axis
+        exp = [[{str(k): ref(rows[k][i]) for k in range(nfields)} for i in range(oo[j], oo[j + 1])] for j in range(len(outer))]
+        return akrun_check(prog + op, exp, 'lists %s of records with %d list-typed fields (inner lengths %s): %s(axis=%d)' % (list(outer), nfields, inner_lens, meth, axis))
+    return mdischarge(nc.m, 'list[record[list]]::%s axis=%d fields=%d outer=%s' % (meth, axis, nfields, ','.join(map(str, outer))), obls, [], replay=replay, prefer=[leaflen <= 24],
+                      extra=dict(bounds='outer lists %s, %d fields, inner list lengths %s concrete; inner origins and leaf lengths symbolic; three real node levels over opaque leaves' % (list(outer), nfields, inner_lens)))
+
+
+def jobs_axis_through_record(tier, meths):
+    js = []
+    for m_ in meths:
+        if tier == 'quick':
+            js += [(h_axis_through_record, (m_, -1, 2), 1800), (h_axis_through_record, (m_, 2, 1), 1800)]
+        else:
+            for outer in ((2, 1), (0, 3), (1, 1, 2), (4,)):
+                for nf in (1, 2, 3):
+                    for ax in (2, -1):
+                        js.append((h_axis_through_record, (m_, ax, nf, outer), 1800))
     return js
